@@ -217,7 +217,7 @@ Definition new_model (x : nat) (s : state) (name : option string) : state * out 
 
 (** Model.close -> System.close_model.  Closing a model that is no longer
     registered (already closed; another model may have taken its name) is a
-    no-op (repaired in /repo, ddd7fb8; the pinned tree deleted the OTHER model:
+    no-op (repaired in /repo, 4f69f1f; the pinned tree deleted the OTHER model:
     finding stale_handle). *)
 Definition close_model (s : state) (h : mid) : state * out :=
   match nlookup h (names s) with
